@@ -575,6 +575,60 @@ func (r *runner) schemaOf(mask uint32) (*hcl.BodySchema, refbody.Schema) {
 	return h, f
 }
 
+// arenaSchemas builds the schemas of the given parts as adjacent sub-slices of shared arrays and
+// returns a function that reports whether the arrays still hold what was put there.
+func arenaSchemas(es []Elem, masks []uint32) ([]*hcl.BodySchema, func() string) {
+	var attrs []hcl.AttributeSchema
+	var blocks []hcl.BlockHeaderSchema
+	type span struct{ a0, a1, b0, b1 int }
+	spans := make([]span, len(masks))
+	for p, mask := range masks {
+		spans[p].a0, spans[p].b0 = len(attrs), len(blocks)
+		for i, e := range es {
+			if mask&(1<<i) == 0 {
+				continue
+			}
+			switch e.Kind {
+			case "attr", "req":
+				attrs = append(attrs, hcl.AttributeSchema{Name: e.Name, Required: e.Kind == "req"})
+			default:
+				blocks = append(blocks, hcl.BlockHeaderSchema{Type: e.Name, LabelNames: labelNames[:e.Labels]})
+			}
+		}
+		spans[p].a1, spans[p].b1 = len(attrs), len(blocks)
+	}
+	// some spare room behind the last part too
+	attrs = append(attrs, hcl.AttributeSchema{Name: "zz-spare"})[:len(attrs)]
+	blocks = append(blocks, hcl.BlockHeaderSchema{Type: "zz-spare"})[:len(blocks)]
+	out := make([]*hcl.BodySchema, len(masks))
+	for p, sp := range spans {
+		out[p] = &hcl.BodySchema{Attributes: attrs[sp.a0:sp.a1], Blocks: blocks[sp.b0:sp.b1]}
+	}
+	wantA := append([]hcl.AttributeSchema(nil), attrs[:len(attrs)+1]...)
+	wantB := make([]string, 0, len(blocks)+1)
+	for _, b := range blocks[:len(blocks)+1] {
+		wantB = append(wantB, fmt.Sprintf("%s/%d", b.Type, len(b.LabelNames)))
+	}
+	return out, func() string {
+		for i, a := range attrs[:len(wantA)] {
+			if a != wantA[i] {
+				return fmt.Sprintf("attribute schema slot %d is now %+v, was %+v", i, a, wantA[i])
+			}
+		}
+		for i, b := range blocks[:len(wantB)] {
+			if got := fmt.Sprintf("%s/%d", b.Type, len(b.LabelNames)); got != wantB[i] {
+				return fmt.Sprintf("block schema slot %d is now %s, was %s", i, got, wantB[i])
+			}
+		}
+		for p, sp := range spans {
+			if len(out[p].Attributes) != sp.a1-sp.a0 || len(out[p].Blocks) != sp.b1-sp.b0 {
+				return fmt.Sprintf("the slices of part %d changed length", p)
+			}
+		}
+		return ""
+	}
+}
+
 func blockTypeIn(es []Elem, mask uint32, name string) bool {
 	for i, e := range es {
 		if mask&(1<<i) != 0 && e.Name == name && e.Kind == "block" {
@@ -655,8 +709,18 @@ func (r *runner) split(assign []int, parts int, oneReal robs, oneRef refbody.Res
 			}
 		}
 	}
+	// The part schemas of one split are adjacent two-index sub-slices of one attribute array and one
+	// block array (as an application gets by slicing one schema into parts): a callee that appends to
+	// the slices it was given writes into the next part's schema.
+	arena, intact := arenaSchemas(r.es, masks)
+	defer func() {
+		if d := intact(); d != "" {
+			r.fail("schema-argument", "modified", "a schema passed to PartialContent / Content was modified by the callee: "+d)
+		}
+	}()
 	for i := 0; i < parts; i++ {
-		h, f := r.schemaOf(masks[i])
+		_, f := r.schemaOf(masks[i])
+		h := arena[i]
 		op := fmt.Sprintf("partial%d", i+1)
 		pc, rem, pd := curB.PartialContent(h)
 		pr, remM := curM.Partial(f)
@@ -691,6 +755,23 @@ func (r *runner) split(assign []int, parts int, oneReal robs, oneRef refbody.Res
 			}
 		}
 		r.remainder(rem, remM, remT, tags)
+		// the same schema once more, on the remainder: everything it names has been consumed, so its
+		// items are absent there (nothing is returned twice; for native, JSON and merged bodies a
+		// required argument is then missing -- for dynamic-block-expanded bodies the property's laws
+		// say nothing about required arguments on a remainder, and dynblock does not report them)
+		{
+			pcR, _, pdR := rem.PartialContent(h)
+			prR, _ := remM.Partial(f)
+			if cl, d := mismatch(observe(pcR, pdR), prR, countErrs); cl != "" && !(r.kind == "expanded" && cl == "error-missing") {
+				op := "same-schema-on-remainder"
+				if t := tags(cl); len(t) > 0 {
+					op = "on-remainder" // the recorded dynblock defect: the label diagnostic repeats on every later call
+				}
+				r.fail(op, cl, d, tags(cl)...)
+				labelMismatchBefore = lm
+				return
+			}
+		}
 		labelMismatchBefore = lm
 		// ending 2: the last part is applied exhaustively to the same remainder (L4)
 		first := got
